@@ -528,6 +528,16 @@ def run(chk, prog):
     ok = sb is not None and sps is not None and psb is not None and sp.simplify(sb - sp.Function("round")(psb * sps)) == 0
     chk.check(ok, "R1", mainf.where, "main: spacing_bins = round(N * spacing) (%s)" % sb, "main:spacing_bins:%s" % sb)
     spd = [a for a in sm.accesses if a.kind == "store" and a.base == "spaced_bins" and a.idx is None]
+    if len(spd) == 1 and spd[0].value is not None and spd[0].value.is_Symbol:
+        # the value was built in a helper's local (a lambda spliced into main): the stores to that local since it was last handed
+        # to another variable are the stores that build spaced_bins
+        hname = str(spd[0].value)
+        scalar = [a for a in sm.accesses if a.kind == "store" and a.idx is None]
+        handed = [a.seq for a in scalar if a.value is not None and a.value.is_Symbol and str(a.value) == hname and a.seq < spd[0].seq]
+        since = max(handed) if handed else -1
+        built = [a for a in scalar if a.base == hname and since < a.seq < spd[0].seq]
+        if built:
+            spd = built
     n1 += 1
     ok = len(spd) >= 1 and spd[0].value is not None and spd[0].value.func == sp.ceiling and \
         sp.simplify(spd[0].value.args[0] - psb * nbk * sps) == 0 if (psb is not None and sps is not None and nbk is not None) else False
